@@ -25,6 +25,7 @@ def main():
     print("vseed:", sh("git log --oneline | head -1", cwd=vseed)[1].strip(), "|", out.strip().splitlines()[-1] if out.strip() else rc, flush=True)
     os.makedirs("/tmp/confirm", exist_ok=True)
     missed = []
+    badreplay = []
     for name in names:
         d = f"/verif/seeded/{name}"
         if not os.path.isfile(f"{d}/patch.diff"):
@@ -47,6 +48,15 @@ def main():
                     rcc, oc = sh(f"{PY} check.py {p} quick", cwd=vseed, env=env, timeout=3000)
                     line = ([l for l in oc.splitlines() if l.startswith("VIOLATION")] or [""])[0]
                     verdicts[p] = "no-input" if "no-failing-input-found" in line else ("VIOLATION" if rcc == 1 else ("OK" if rcc == 0 else "rc%d" % rcc))
+                    if p == pid and rcc == 1 and "no-failing-input-found" not in line:
+                        # the replay file must reproduce on the changed tree and must not on the unchanged one
+                        m = re.search(r"replay=(\S+)", line)
+                        if m and os.path.isfile(m.group(1)):
+                            r1, _ = sh(f"{PY} check.py {p} --replay {m.group(1)}", cwd=vseed, env=env, timeout=1200)
+                            r0, _ = sh(f"{PY} check.py {p} --replay {m.group(1)}", cwd=vseed, env=dict(os.environ, LOMOND_REPO="/repo"), timeout=1200)
+                            res["replay"] = "ok" if (r1 == 1 and r0 == 0) else "changed=%d unchanged=%d" % (r1, r0)
+                            if res["replay"] != "ok":
+                                badreplay.append((name, res["replay"]))
                 res["verdicts"] = verdicts
                 if verdicts.get(pid) != "VIOLATION":
                     missed.append((name, verdicts.get(pid)))
@@ -54,7 +64,7 @@ def main():
             sh(f"git -C /repo worktree remove --force {w}")
             shutil.rmtree(w, ignore_errors=True)
         print(json.dumps(res), flush=True)
-    print("SUMMARY: %d seeds, own-property check did not report a failing input for: %s" % (len(names), missed), flush=True)
+    print("SUMMARY: %d seeds, own-property check did not report a failing input for: %s ; replay files that do not behave (exit 1 on the changed tree, 0 on the unchanged one): %s" % (len(names), missed, badreplay), flush=True)
 
 
 if __name__ == "__main__":
